@@ -90,6 +90,7 @@ pub const NUM_TOKENS: &[&str] = &[
     "1.7976931348623157e308", "1e400", "1e-400", "0.1", "0.30000000000000004", "100000000000000000000.5", "1.e3", "1.5e", "1e+", "1e-",
     "3.", "3.e", "0.000001", "0.0000001234", "100000000000000000000000.0", "0.1e-5", "-0.000001", "12345678.9e-20", "12345678901234567890.12345678901234567890e10", "1e2147483648", "1e-2147483649", "0e99999999999", "2e308", "9007199254740993",
     "1e-99999999990", "0e99999999900", "1e+99999999990", "-1e-10000000000", "0.0e-30000000000",
+    "1e+5", "1E+5", "2.5e+3", "6.02e+22", "0e+0", "1.5e-7", "4.5e-8",
     "1.5e-2147483647", "-0.5e-2147483647", "1.25e-2147483646", "0.0e-2147483647", "15e-2147483647", "1.5e2147483647", "1.5e-2147483648", "0.5e+2147483647",
 ];
 /// Character names of R6RS, R7RS and neighbouring Scheme dialects: a reader
@@ -223,6 +224,22 @@ fn pick_token(r: &mut Rng) -> String {
         5 => (*r.pick(STR_TOKENS)).to_string(),
         _ => (*r.pick(SYM_TOKENS)).to_string(),
     }
+}
+
+/// Hundreds of top-level datums of one kind side by side, and runs of failing datums followed by
+/// ordinary ones: what a parser does per datum of a kind - a nesting budget charged and handed
+/// back, also on the error paths - adds up over one parser's lifetime.
+pub fn wide_sequences() -> Vec<String> {
+    let tail = " (a b 1 \"x\") '(c . d) #(1 (2 3)) #u8(1 2) ; done";
+    let mut v = vec![];
+    for unit in ["#u8(1) ", "#vu8() ", "'x ", "`(a ,b) ", "(a) ", "#(1) ", "\"s\" ", "#\\a ", "(a . b) ", ",@x "] {
+        v.push(format!("{}{}", unit.repeat(300), tail));
+    }
+    for unit in ["') ;oops\n", "'#z ", "(a . ) ", "#u8(1 x) ", "#(a ] ", "`,) ", "'(a . b c) ", "(1 (2 ] ", "'\"unterminated\\", "#u8(256) "] {
+        v.push(format!("{}{}", unit.repeat(140), tail));
+    }
+    v.push(format!("{}){}", "'".repeat(127), tail));
+    v
 }
 
 /// Mostly well-nested token soup.
